@@ -44,6 +44,10 @@ The model follows the code of `/repo/reactive_stores` **as it is**, defects incl
                                    controlled executor in spawn order) and `ImmediateEffect` (runs inside `notify`),
                                    `KeyMap::with_field_keys` (lazy `FieldKeys::new(latest_keys())`),
                                    `KeyedSubfieldWriteGuard::drop` (notify, `update_keys`, notify again).
+* store handles                  — `Store` (arena), `ArcStore`, their clones and `Store::from(ArcStore)` are not distinguished:
+                                   every handle of one store shares its value (`Arc<RwLock<T>>`), its `TriggerMap` and its
+                                   `KeyMap`; `Write::try_write` of both notifies `rootWriteNotify`.  The harness runs every
+                                   case through one of them (`init <value> arena|arc|conv`).
 * `logicalGet`, `related`, `diffVal` — the *specification* side (no Rust counterpart): the value a reader of a chain
                                    ought to see (keyed items found by key, not by stored index), the prefix relation on
                                    chains, the fields that differ between two values.  Used by the driver's oracle only.
